@@ -370,10 +370,10 @@ impl Scenario for C11S {
     }
     fn count(&self, tier: Tier, variant: &str) -> u64 {
         match (tier, variant) {
-            (Tier::Quick, "os") => 4000,
-            (Tier::Quick, _) => 1000,
-            (Tier::Thorough, "os") => 200_000,
-            (Tier::Thorough, _) => 50_000,
+            (Tier::Quick, "os") => 16_000,
+            (Tier::Quick, _) => 5000,
+            (Tier::Thorough, "os") => 700_000,
+            (Tier::Thorough, _) => 200_000,
         }
     }
     fn rule(&self) -> &'static str {
